@@ -39,9 +39,9 @@ class MRIVarSplitNetConfig(ModelConfig):
     kspace_didn_num_convs_recon: Optional[int] = 9
     image_conv_hidden_channels: Optional[int] = 64
     image_conv_n_convs: Optional[int] = 15
-    image_conv_activation: Optional[str] = ActivationType.RELU
+    image_conv_activation: Optional[ActivationType] = ActivationType.RELU
     image_conv_batchnorm: Optional[bool] = False
     kspace_conv_hidden_channels: Optional[int] = 64
     kspace_conv_n_convs: Optional[int] = 15
-    kspace_conv_activation: Optional[str] = ActivationType.PRELU
+    kspace_conv_activation: Optional[ActivationType] = ActivationType.PRELU
     kspace_conv_batchnorm: Optional[bool] = False
